@@ -52,6 +52,17 @@ CLAIMED["C05"] = dict(
     note=TB + "the ~295 primitive identifiers without a reading are covered only through anchors and dependants (as the property says); known finding F7 excluded by name",
     technique="Coq proof by exhaustive evaluation over regenerated tables (translator + certificate checking)")
 
+CLAIMED["C14"] = dict(
+    text="Coq theorems about the Gallina transcription of src/si/time.rs at float storage of any precision <= 60 bits: the conversion never "
+         "reaches Duration::new's panic (carry cannot overflow: integer argument on the float representation), strictly negative stored "
+         "values report NegativeDuration in every base unit, NaN reports Overflow, Ok results are well-formed; to_u64/to_u32 accept exactly "
+         "-1 < x < 2^bits; tie: bit-exact correspondence of the extracted model with Duration::try_from / Time::try_from for f32/f64 in five "
+         "time base units over boundary classes (2^64, whole seconds +-2 ulps, tiny negatives, -0.0, NaN, inf), integer storage in range, and "
+         "an exact-rational spec checker (1 ns + few ulps)",
+    note=TB + "accuracy (1 ns + few ulps) is decided per case by exact arithmetic, not by a general theorem; integer storage by spec checker only; "
+         "known finding: i32 storage with a base unit longer than 2.147 s panics",
+    technique="Coq proof + extracted-model correspondence + exact oracle")
+
 NOT_YET = "check under construction in this build phase; will be claimed once bin/check implements it"
 
 
